@@ -17,7 +17,7 @@ import types
 
 ROOT = os.path.dirname(os.path.dirname(os.path.abspath(__file__)))
 REPO = os.environ.get("VERIF_REPO", "/repo")
-OUT = os.path.join(ROOT, "lean", "SCModel", "Generated", "Tables.lean")
+OUT = os.environ.get("VERIF_TABLES_OUT") or os.path.join(ROOT, "lean", "SCModel", "Generated", "Tables.lean")
 
 SIDE = {"left": ".left", "right": ".right"}
 
